@@ -75,6 +75,7 @@ ACapacity  == \E op \in {"reserve", "reserve_exact"}, k \in {0, 1, 9} : Do(op, [
 AShrink    == Do("shrink_to_fit", NoArg, 0)
 AFill      == Do("fill", [v |-> nextId], 1)
 ASet       == \E c \in Edge(C) \cup {BigMAX}, r \in Edge(R) \cup {BigMAX} : Do("set", [c |-> c, r |-> r, v |-> nextId], 1)
+ASetFlat   == \E i \in Edge(Cells) \cup {BigMAX}, via \in {0, 1} : Do("set_flat", [i |-> i, via |-> via, v |-> nextId], 1)
 ASwap      == \E c1 \in Edge(C), r1 \in Edge(R), c2 \in Edge(C), r2 \in Edge(R) :
                  Do("swap", [c1 |-> c1, r1 |-> r1, c2 |-> c2, r2 |-> r2], 0)
 ASwapRows  == \E r1 \in Edge(R) \cup {BigMAX}, r2 \in Edge(R) \cup {BigMAX} : Do("swap_rows", [r1 |-> r1, r2 |-> r2], 0)
@@ -185,7 +186,7 @@ Init == /\ phase = "none" /\ grid = << >> /\ handle = NoHandle /\ held = << >>
 Next == \/ CFromVec \/ CInit \/ CNew \/ CDefault \/ CWithCapacity
         \/ AInsertRow \/ APushRow \/ AInsertCol \/ APushCol
         \/ ARemoveRow \/ APopRow \/ ARemoveCol \/ APopCol \/ ADrain
-        \/ AClear \/ ASwapDims \/ ACapacity \/ AShrink \/ AFill \/ ASet \/ ASwap \/ ASwapRows \/ ASwapCols
+        \/ AClear \/ ASwapDims \/ ACapacity \/ AShrink \/ AFill \/ ASet \/ ASetFlat \/ ASwap \/ ASwapRows \/ ASwapCols
         \/ ATranslate \/ AFlip \/ ASortRow \/ ASortCol \/ AClone \/ ACloneFrom \/ ACloneInto \/ ASortForms \/ AFromView \/ AConsume
         \/ FaultNext
 
